@@ -147,6 +147,7 @@ def build(recipe):
 
 def finish(b, claims):
     seen = []
+    b.claimed_steps = []
     for ci in claims:
         th = b.pool[ci]
         if th is None:
@@ -154,6 +155,7 @@ def finish(b, claims):
         if th.conc in seen:
             continue
         seen.append(th.conc)
+        b.claimed_steps.append(ci)
         b.main.add_claim(th.conc)
         b.main.add_proof_expression(th)
 
